@@ -131,7 +131,7 @@ def run_case(case):
 
     w, fr = make_world(case)
     d = util.scratch("c02")
-    scale = dict(u=(2.0 ** -10, 0.0), v=(2.0 ** -10, 0.0), temp=(2.0 ** -6, 8.0))
+    scale = dict(u=(2.0 ** -9, 0.0), v=(2.0 ** -10, 0.0), temp=(2.0 ** -6, 8.0))  # u and v packed differently on purpose
     f = w.write_file(d / "f.nc", [dict(t=S0, **fr), dict(t=S0 + 10 * DT, **fr)], storage=case["storage"], scale=scale)
     viols, n, nt = [], 0, 0
     outcomes = set()
